@@ -15,7 +15,7 @@ git apply $src/patch.diff 2>/dev/null
 mkdir -p $dst
 result=""
 for c in "${checks[@]}"; do
-  out=$(cd /verif && ./check $c --tier quick 2>&1); rc=$?
+  out=$(cd /verif && VERIF_NO_SHRINK=1 ./check $c --tier quick 2>&1); rc=$?
   key=$(echo "$out" | grep -m1 "^violation key:" | sed 's/violation key: //')
   nviol=$(echo "$out" | grep -c "^VIOLATION")
   echo "SEED $id/$m check=$c exit=$rc violations=$nviol first_key=[$key]"
